@@ -2,7 +2,8 @@
 """tools/mkprompts.py <batch> [focus.json] : writes /tmp/prompts/<batch>-Cnn.txt
 (one prompt per property for a fresh sub-agent: the property text, its own
 scratch worktree /tmp/wt/<batch>-Cnn, nothing from /verif) and creates the
-worktrees. focus.json maps property id -> a focus hint (optional)."""
+worktrees. focus.json maps property id -> a focus hint (optional; with "_only": true
+only the properties it names get a prompt)."""
 import json
 import os
 import subprocess
@@ -30,6 +31,8 @@ os.makedirs('/tmp/prompts', exist_ok=True)
 for line in open('/verif/properties.jsonl'):
     d = json.loads(line)
     pid = d['id']
+    if focus.get('_only') and pid not in focus:
+        continue    # a batch for some of the properties only
     wt = '/tmp/wt/%s-%s' % (batch, pid)
     subprocess.run(['git', '-C', '/repo', 'worktree', 'add', '-q', '--detach',
                     wt, 'HEAD'])
